@@ -8,6 +8,18 @@ CHECKS = {
    text="Bounded model checking of one step of the real frame dispatcher (ConnectionState::process with the collector, routing and client-exception code it calls, from MIR) from every collector state of a two-channel Steady connection over a fully symbolic AMQPFrame (every arm, every channel id, every field value), against a complete outcome table (which error / client exception / Ok each (state, frame) pair must produce) and effect conditions (nothing delivered on a violation, Connection.Close with the matching hard-error code as last frame, sealed buffer, later frames ignored).",
    note="One step per state family, not arbitrary-length sequences: longer sequences are covered only through the state families (collector states None/Start/Body per kind, ClientException). Two open channels, one consumer each; reply/consumer receivers alive; HashMap as association list, crossbeam queues, Vec<u8> lengths and amq-protocol frame generators are summaries; frame bytes themselves (parsing) are C06.",
    ref="DESIGN.md §4 C07"),
+ 'C08': dict(
+   text="Bounded model checking, from MIR, of both close directions: one step of the frame dispatcher for a server Connection.Close / CloseOk over symbolic code/text, channels, consumers and queued data (CloseOk last + sealed + everyone notified + slots drained; done exactly when flushed), the sealing behaviour of the output buffer (later sends and pushes are no-ops), the result mapping of run_connection, the client's close call (exactly Connection.Close(200, goodbye, 0, 0) as one ConnectionClose message) and Connection::close preferring the I/O thread's error.",
+   note="Poll loop and thread join are stubs returning arbitrary results; racing operations from other threads are modelled as messages arriving before or after the seal; receivers alive (dead endpoints: C05). Counterexamples of the frame-dispatch part are replayed natively by observation equality; a sample of passing paths is validated against the real code on every run.",
+   ref="DESIGN.md §4 C08"),
+ 'C09': dict(
+   text="Bounded model checking of the Channel.Close / Channel.CloseOk arms of the real dispatcher (MIR) from a two-channel state with the closed channel idle, mid-content or with consumers attached: slot removed and id freed, ServerClosedChannel(n, code, text) to its caller and each consumer exactly once followed by disconnect, CloseOk(n) queued, every other slot untouched, connection stays Steady; a stale wake-up for the removed slot is a no-op; on the handle side the queued error surfaces first and later calls fail with EventLoopDropped.",
+   note="Frame condition is per slot (one other channel in the harness; any number by induction); reply/consumer receivers alive; id reuse itself is C10. Native replay by observation equality; sampled translator validation each run.",
+   ref="DESIGN.md §4 C09"),
+ 'C13': dict(
+   text="Bounded model checking of the confirm / return / blocked forwarding code (MIR): sequences of K symbolic Ack/Nack frames on either of two channels with the listener's receiver dropped at an arbitrary point, Blocked/Unblocked sequences, completed returned messages, and listener (re)registration: the listener queue must equal the sent sequence (kind, tag, multiple / reason / method fields) in order while the listener is installed and alive, nothing is forwarded elsewhere, a dropped or absent listener only discards, registration replaces and disconnects the old listener, and the listen call enqueues its registration ahead of later requests.",
+   note="Sequence length K (evidence.bounds); FIFO of crossbeam / mio_extras channels trusted; native replay by observation equality.",
+   ref="DESIGN.md §4 C13"),
  'C10': dict(
    text="Bounded model checking of the real ChannelSlots code from MIR: (i) every history of K symbolic open(Some id)/open(None)/close/drain operations from the fresh table for every channel_max at once, against a ghost open-set oracle; (ii) one inductive step from an arbitrary table satisfying the representation invariant (all 65536 ids as SMT arrays), which extends the claim to histories of any length; CTIs are turned into real histories and replayed.",
    note="HashMap/IndexSet summarised (association list / arrays); entry-making closure assumed to succeed; the never-used-id scan is unrolled u times (longer scans of occupied ids outside the claim); quick tier uses the overflow-checking (dev) MIR profile, thorough both profiles.",
